@@ -321,8 +321,19 @@ ReqDocRollbackExact(x) == (~x.o.dryRun /\ x.res = "DocumentSyncConflict") =>
   /\ \A L \in DocLocs(x) : Confl(L.s.m, L.d.m, "") # {} => L.p = L.d
 
 (* ---- C15 ---- *)
-RealRes(x) == SyncFn(x.src, x.dst, [x.o EXCEPT !.dryRun = FALSE]).res
-ReqDryRunFrame(x) == x.o.dryRun => x.rawSame /\ x.srcSame /\ x.post = x.dst /\ x.res = RealRes(x)
+\* result classes a raise inside the thread pool can surface: imap reports the first job IN ORDER that raised, but the ByKey object
+\* (and its skipped_keys) is shared by all workers, so a job that is fine on its own may raise DocumentSyncConflict for another job's keys
+ParResOf(src, dst, o) ==
+  LET sel == Selected(src, o) IN
+  ({ProjStep(src.jobs[j], dst, j, o).res : j \in sel} \ {"ok"})
+  \cup (IF o.docSync = "bykey" /\ \E j \in sel \cap DOMAIN dst.jobs : ByKey(src.jobs[j].doc.m, dst.jobs[j].doc.m, "", o, FALSE).skipped # {}
+        THEN {"DocumentSyncConflict"} ELSE {})
+\* "completes (or reports the conflict a real run would)"
+RealResSet(x) == LET o2 == [x.o EXCEPT !.dryRun = FALSE]  r == SyncFn(x.src, x.dst, o2).res IN
+  {r} \cup (IF ProjLevel(o2) /\ o2.parallel # "no" /\ r # "ok" THEN ParResOf(x.src, x.dst, o2) ELSE {})
+\* a document file may be REWRITTEN with identical content (a failed item assignment on a synced list saves on exit): not a change
+NoDmt(P) == [P EXCEPT !.jobs = [j \in DOMAIN P.jobs |-> [P.jobs[j] EXCEPT !.dmt = 0]]]
+ReqDryRunFrame(x) == x.o.dryRun => x.rawSame /\ x.srcSame /\ NoDmt(x.post) = NoDmt(x.dst) /\ x.res \in RealResSet(x)
 ReqDeepByContent(x) == (x.o.deep /\ ~x.o.dryRun) =>
   /\ x.res = "ok" => \A b \in Cand(x) : b.s.data # b.d.data =>
         x.o.strategy # "none" /\ IF Verdict(b.s, b.d, b.p, x.o) THEN Written(x, b) ELSE Kept(x, b)
@@ -359,7 +370,7 @@ Tags(n, x) ==
   CASE n = "FilesArrive" -> {IF \A m \in MissingFiles(x) : IgnPath(m.p) THEN "dircmp-ignored-name" ELSE "file-missing:" \o Level(x)}
     [] n = "DryRunFrame" ->
          LET js == (DOMAIN x.post.jobs) \cup (DOMAIN x.dst.jobs)
-             t1 == IF x.res # RealRes(x) THEN {"raises-" \o x.res} ELSE {}
+             t1 == IF x.res \notin RealResSet(x) THEN {"raises-" \o x.res} ELSE {}
              t2 == IF PDirs(x.post) # PDirs(x.dst) THEN {"directory-created"} ELSE {}
              \* DEVIATION D3 only reaches keys INSIDE mappings that exist on both sides; anything else is a different defect
              nestedOnly(d, q) == q.t = "m" /\ DOMAIN q.m = DOMAIN d.m /\ \A k \in DOMAIN d.m : q.m[k] = d.m[k] \/ (q.m[k].t = "m" /\ d.m[k].t = "m")
@@ -423,7 +434,7 @@ LooseOK(x, R) ==
                /\ IF inD THEN DryNestedDocWrites \/ pj.doc = dj.doc ELSE DryCopytreeMkdirs /\ pj.doc = EmptyDoc
 \* first failing conjunct, "" when the recorded execution is a behaviour of the specification
 ConfWhy(x) == LET R == SyncFn(x.src, x.dst, x.o) IN
-  IF x.res # R.res THEN "result"
+  IF x.res # R.res /\ ~(Loose(x, R) /\ ProjLevel(x.o) /\ x.o.parallel # "no" /\ x.res \in ParResOf(x.src, x.dst, x.o)) THEN "result"
   ELSE IF Loose(x, R) THEN (IF LooseOK(x, R) THEN "" ELSE "partial-state")
   ELSE IF MaskProj(x.post, x.o) # MaskProj(R.dst, x.o) THEN "post-state"
   ELSE IF R.res = "FileSyncConflict" /\ x.fn # R.fn THEN "payload"
@@ -570,6 +581,14 @@ vars == <<c, r, pend, cur, sres>>
 NoProj == [jobs |-> <<>>, pdoc |-> EmptyDoc]
 NoR == [viol |-> {}, excused |-> {}, feat |-> {}, res |-> "", why |-> "", tags |-> {}]
 
+(* MODE = "file" (SyncTrace): SYNC_IN is NDJSON, one recorded real execution per line:
+     {id, src, dst, o, post, res, fn, keys, cons, post2, res2, srcSame, srcAfter, rawSame, seqPost, seqRes}
+   src/dst/post/post2/srcAfter/seqPost are Projects in the shapes of section 1 (raw os.walk + json observation, mtimes as ranks,
+   everything written during the call = NOW); res is "ok" or the exception class, fn / keys the payload of FileSyncConflict /
+   DocumentSyncConflict, cons the (job, path) pairs a custom strategy was asked about; post2/res2 the repeated call; srcSame / rawSame
+   byte-identity of the raw source / destination snapshots; seqPost/seqRes the same case run with parallel=False.
+   SYNC_OUT gets one verdict per record: why ("" = a behaviour of SyncFn, else the first failing conformance conjunct), the violated
+   requirements of PROP with tags, and SyncFn's expectation when why # "". *)
 RecsIn == IF MODE = "file" THEN ndJsonDeserialize(IOEnv.SYNC_IN) ELSE <<>>
 \* ndJsonDeserialize yields records; rebuild every mapping as a function so that it compares with the specification's values
 RECURSIVE FixDir(_)
